@@ -110,6 +110,39 @@ class Conn:
         return False
 
 
+import re as _re
+
+_SELECT = _re.compile(r"^SELECT (.+?) FROM KNOWN_HOSTS(?: WHERE (.+?))?(?: ORDER BY (.+))?$")
+_INSERT = _re.compile(r"^(?:INSERT( OR REPLACE)?|REPLACE) INTO KNOWN_HOSTS \((.+?)\) VALUES \((?:\?,? ?)+\)$")
+_UPDATE = _re.compile(r"^UPDATE KNOWN_HOSTS SET (.+?)(?: WHERE (.+))?$")
+_DELETE = _re.compile(r"^DELETE FROM KNOWN_HOSTS(?: WHERE (.+))?$")
+_ASSIGN = _re.compile(r"^([A-Z_]+) = \?$")
+_PRED = _re.compile(r"^([A-Z_]+) (=|!=|<>) \?$")
+
+
+def _where(text, params):
+    """conjunction of ``col = ?`` / ``col != ?`` -> [(col, op, value)], remaining params"""
+    if not text:
+        return [], list(params)
+    preds = []
+    params = list(params)
+    for part in text.split(" AND "):
+        m = _PRED.match(part.strip())
+        if not m or m.group(1).lower() not in COLS:
+            raise HarnessError("unmodelled WHERE clause %r" % part)
+        if not params:
+            raise HarnessError("too few SQL parameters")
+        preds.append((m.group(1).lower(), m.group(2), params.pop(0)))
+    return preds, params
+
+
+def _match(row, preds):
+    for col, op, v in preds:
+        if (row[col] == v) != (op == "="):
+            return False
+    return True
+
+
 def _norm(sql):
     return " ".join(sql.split()).upper().rstrip(";")
 
@@ -130,7 +163,8 @@ class Cur:
         s = _norm(sql)
         c.ctl.tick(s[:40])
         self.res = []
-        if s.startswith("CREATE TABLE") or s.startswith("PRAGMA"):
+        params = list(params)
+        if s.startswith("CREATE TABLE") or s.startswith("PRAGMA") or s.startswith("CREATE INDEX"):
             return self
         if s in ("BEGIN", "BEGIN IMMEDIATE", "BEGIN EXCLUSIVE", "BEGIN TRANSACTION", "BEGIN DEFERRED"):
             return self
@@ -142,65 +176,69 @@ class Cur:
         if s == "ROLLBACK":
             c.pending = None
             return self
-        if s.startswith("SELECT FINGERPRINT FROM KNOWN_HOSTS WHERE HOSTNAME = ? AND PORT = ?"):
-            r = c._view().get((params[0], params[1]))
-            self.res = [self._mk(r, ("fingerprint",))] if r else []
-        elif s.startswith("SELECT HOSTNAME, PORT, FINGERPRINT, FIRST_SEEN, LAST_SEEN FROM KNOWN_HOSTS WHERE HOSTNAME = ? AND PORT = ?"):
-            r = c._view().get((params[0], params[1]))
-            self.res = [self._mk(r)] if r else []
-        elif s.startswith("SELECT HOSTNAME, PORT, FINGERPRINT, FIRST_SEEN, LAST_SEEN FROM KNOWN_HOSTS"):
-            if "WHERE" in s:
-                raise HarnessError("unmodelled SQL: " + s)
-            self.res = [self._mk(r) for r in c._view().values()]
-        elif s.startswith("SELECT COUNT(*) FROM KNOWN_HOSTS WHERE HOSTNAME = ?"):
-            n = len([1 for (h, p) in c._view() if h == params[0]])
-            self.res = [Row([("COUNT(*)", n)])]
-        elif s.startswith("SELECT COUNT(*) FROM KNOWN_HOSTS"):
-            self.res = [Row([("COUNT(*)", len(c._view()))])]
-        elif s.startswith("INSERT OR REPLACE INTO KNOWN_HOSTS") or s.startswith("REPLACE INTO KNOWN_HOSTS"):
-            h, p, fp, fs, ls = params
-            c._w()[(h, p)] = dict(hostname=h, port=p, fingerprint=fp, first_seen=fs, last_seen=ls)
-            self.rowcount = 1
-        elif s.startswith("INSERT INTO KNOWN_HOSTS"):
-            h, p, fp, fs, ls = params
+        m = _SELECT.match(s)
+        if m:
+            cols, where, _order = m.group(1), m.group(2), m.group(3)
+            preds, rest = _where(where, params)
+            if rest:
+                raise HarnessError("unmodelled SQL (parameters left over): " + s)
+            rows = [r for r in c._view().values() if _match(r, preds)]
+            if cols.strip() == "COUNT(*)":
+                self.res = [Row([("COUNT(*)", len(rows))])]
+            else:
+                names = [x.strip().lower() for x in cols.split(",")] if cols.strip() != "*" else list(COLS)
+                for nm in names:
+                    if nm not in COLS:
+                        raise HarnessError("unmodelled SQL column %r: %s" % (nm, s))
+                self.res = [self._mk(r, names) for r in rows]
+            return self
+        m = _INSERT.match(s)
+        if m:
+            replace, cols = m.group(1), [x.strip().lower() for x in m.group(2).split(",")]
+            if sorted(cols) != sorted(COLS) or len(params) != len(cols):
+                raise HarnessError("unmodelled INSERT: " + s)
+            row = dict(zip(cols, params))
+            key = (row["hostname"], row["port"])
             w = c._w()
-            if (h, p) in w:
+            if key in w and not replace:
                 raise _real.IntegrityError("UNIQUE constraint failed: known_hosts.hostname, known_hosts.port")
-            w[(h, p)] = dict(hostname=h, port=p, fingerprint=fp, first_seen=fs, last_seen=ls)
+            w[key] = {k: row[k] for k in COLS}
             self.rowcount = 1
-        elif s.startswith("UPDATE KNOWN_HOSTS SET FINGERPRINT = ?, LAST_SEEN = ? WHERE HOSTNAME = ? AND PORT = ?"):
-            fp, ls, h, p = params
+            return self
+        m = _UPDATE.match(s)
+        if m:
+            sets = [x.strip() for x in m.group(1).split(",")]
+            setcols = []
+            for st in sets:
+                mm = _ASSIGN.match(st)
+                if not mm or mm.group(1).lower() not in COLS or mm.group(1).lower() in ("hostname", "port"):
+                    raise HarnessError("unmodelled UPDATE assignment %r: %s" % (st, s))
+                setcols.append(mm.group(1).lower())
+            vals, rest = params[:len(setcols)], params[len(setcols):]
+            preds, rest = _where(m.group(2), rest)
+            if rest:
+                raise HarnessError("unmodelled SQL (parameters left over): " + s)
             w = c._w()
-            if (h, p) in w:
-                w[(h, p)]["fingerprint"] = fp
-                w[(h, p)]["last_seen"] = ls
-                self.rowcount = 1
-            else:
-                self.rowcount = 0
-        elif s.startswith("UPDATE KNOWN_HOSTS SET LAST_SEEN = ? WHERE HOSTNAME = ? AND PORT = ?"):
-            ls, h, p = params
+            n = 0
+            for r in w.values():
+                if _match(r, preds):
+                    for col, v in zip(setcols, vals):
+                        r[col] = v
+                    n += 1
+            self.rowcount = n
+            return self
+        m = _DELETE.match(s)
+        if m:
+            preds, rest = _where(m.group(1), params)
+            if rest:
+                raise HarnessError("unmodelled SQL (parameters left over): " + s)
             w = c._w()
-            if (h, p) in w:
-                w[(h, p)]["last_seen"] = ls
-                self.rowcount = 1
-            else:
-                self.rowcount = 0
-        elif s == "DELETE FROM KNOWN_HOSTS":
-            w = c._w()
-            self.rowcount = len(w)
-            w.clear()
-        elif s.startswith("DELETE FROM KNOWN_HOSTS WHERE HOSTNAME = ? AND PORT = ?"):
-            w = c._w()
-            self.rowcount = 1 if w.pop((params[0], params[1]), None) is not None else 0
-        elif s.startswith("DELETE FROM KNOWN_HOSTS WHERE HOSTNAME = ?"):
-            w = c._w()
-            ks = [k for k in w if k[0] == params[0]]
+            ks = [k for k, r in w.items() if _match(r, preds)]
             for k in ks:
                 del w[k]
             self.rowcount = len(ks)
-        else:
-            raise HarnessError("unmodelled SQL: " + s)
-        return self
+            return self
+        raise HarnessError("unmodelled SQL: " + s)
 
     def executemany(self, sql, seq):
         for p in seq:
